@@ -47,7 +47,7 @@ Theorem C15_frontier_never_passes_unexecuted :
 Proof.
   intros n tr s H. pose proof (finv_run _ _ _ (finv_init n) H) as I. split.
   - intros v Hv. exact (fi_sound _ I v Hv).
-  - intros t lo r Hr. exact (proj2 (fi_ret _ I t lo r Hr)).
+  - intros t lo r Hr. exact (proj2 (proj1 (fi_ret _ I t lo r Hr))).
 Qed.
 
 Theorem C15_frontier_monotone :
@@ -67,6 +67,31 @@ Proof.
   unfold fcur. simpl. rewrite last_app1. split; lia.
 Qed.
 
+(* the frontier catches up with completed transactions whatever order they completed in and
+   whether or not their publishers advanced it (under the declared orderings two publishers can
+   miss each other): a current() call whose flag loads were not stale and whose last frontier load
+   was fresh returns at least the first index that had not completed when the call started.
+   [returned] records (thread, lo, value) for such calls; lo is that first index, or 0 if one of
+   the call's flag loads was stale (Frontier/Model.v, FlagLoad and CurFlag). *)
+Theorem C15_frontier_catches_up :
+  forall n tr s, frun (finit n) tr = Some s ->
+  forall t lo r, In (t, lo, r) (returned s) -> lo <= r.
+Proof.
+  intros n tr s H t lo r Hr.
+  exact (proj2 (fi_ret _ (finv_run _ _ _ (finv_init n) H) t lo r Hr)).
+Qed.
+
+(* non-vacuity: transaction 1 completes before 0, both publishers miss each other (stale loads)
+   and leave the frontier at 1 with nobody advancing; a reader then returns 2 = its lower bound *)
+Definition stuck_then_helped : list fevent :=
+  [PubLoad1 1 1 0; FlagStore 1 1; PubLoad2 1 1 0;
+   PubLoad1 2 0 0; FlagStore 2 0; PubLoad2 2 0 0; FlagLoad 2 0 true; FlagLoad 2 1 false;
+   FetchMax 2 1 0; FlagLoad 2 1 false;
+   CurLoad 3 1; CurFlag 3 true; FlagLoad 3 1 true; ScanEnd 3; FetchMax 3 2 1; ScanEnd 3; CurRet 3 2].
+Example C15_catch_up_witness :
+  exists s, frun (finit 2) stuck_then_helped = Some s /\ returned s = [(3, 2, 2)] /\ fcur s = 2.
+Proof. vm_compute. eexists; split; [reflexivity|split; reflexivity]. Qed.
+
 (* ---- a validation that predates a rewind covering it never makes its transaction final
    (protocol level, Stm model: every interleaving of the scheduler's hook events) ---- *)
 Theorem C15_stale_validation_never_final :
@@ -78,6 +103,7 @@ Proof. exact Stm.Safety.finality_needs_validation_newer_than_rewinds. Qed.
 
 Print Assumptions C15_frontier_never_passes_unexecuted.
 Print Assumptions C15_frontier_monotone.
+Print Assumptions C15_frontier_catches_up.
 Print Assumptions C15_advance_makes_progress.
 Print Assumptions C15_stale_validation_never_final.
 Print Assumptions C15_claim_below_limit.
